@@ -25,8 +25,11 @@ def run_impl(case):
     modes = [rnd.choice(["level", "rise", "fall"]) for _ in range(n)]
     em = event.EventMap()
     srcs = [event.Source(trigger=m) for m in modes]
-    for s in srcs:
+    rep_rng = lib.rng_for(case["seed"], case["idx"], 1444)
+    for k_, s in enumerate(srcs):
         em.add(s)
+        if rep_rng.random() < 0.15:
+            em.add(srcs[rep_rng.randrange(k_ + 1)])        # adding a source again changes nothing
     dut = csr.EventMonitor(em, trigger=rnd.choice(["level", "rise"]), data_width=dw, alignment=al)
     mm = dut.bus.memory_map
     lay = {tuple(i.path[0])[0]: (i.start, i.end) for i in mm.all_resources()}
